@@ -76,10 +76,11 @@ ListedAll(M, E, A) == SubsetEq(A, ListedPlains(M, E))
 TAllEnts(M) == FoldSet(LAMBDA m, acc : acc \cup m.ents, {}, M)
 (* the step removed meta blobs: every entry of theirs that counts is held by a meta blob that stays (looked for in
    the ones with at least as many lines first), or its plain is listed by another entry that stays *)
+HeldBy(es, K, M1, E, A) ==
+  \A e \in es : e.p \in A => \/ [id |-> e.c, p |-> e.p] \in E /\ \E m2 \in K : e \in m2.ents
+                             \/ ListedIn(M1, E, e.p)
 StillListed(M0, M1, E, A) ==
-  \A m \in {x \in M0 : x.id \notin Ids(M1)} : \A e \in m.ents :
-     e.p \in A => \/ [id |-> e.c, p |-> e.p] \in E /\ \E m2 \in {x \in M1 : x.n > m.n} : e \in m2.ents
-                  \/ ListedIn(M1, E, e.p)
+  \A m \in {x \in M0 : x.id \notin Ids(M1)} : HeldBy(m.ents, {x \in M1 : x.n > m.n}, M1, E, A)
 
 TLower ==
   /\ IsEv("lower") /\ Live /\ UNCHANGED fvars
@@ -91,7 +92,7 @@ TLower ==
             /\ Ev.id = nextId
             /\ \/ Ev.np <= 1 /\ RecvMeta
                \/ /\ Ev.np # 1
-                  /\ Check("the packed meta blob uploaded does not have the lines of the meta blobs any running job is about to remove",
+                  /\ Check("no running job packs as many lines as the uploaded packed meta blob has",
                            \E j \in jobs : j.pc \in {"get", "upload"} /\ j.n = Ev.np)
                   /\ \E j \in jobs : j.n = Ev.np /\ JobUploadFrom(j, {"get", "upload"})
        [] Ev.act = "idxset" -> recv.p = Ev.p /\ recv.c = Ev.c /\ RecvIndex
@@ -141,21 +142,21 @@ TRecvN ==
          S == SeqToSet(Ev.ps) IN
      /\ Len(Ev.cs) = k /\ Len(Ev.ms) = k /\ Len(Ev.szs) = k
      /\ \A i \in 1..k : Ev.cs[i] = nextId + 2 * (i - 1) /\ Ev.ms[i] = nextId + 2 * (i - 1) + 1
-     /\ ~caps.readOnly /\ S \subseteq Blobs
+     /\ ~caps.readOnly /\ \A b \in S : b % 2 = 0 /\ b >= 2 /\ b <= 2 * NBlobs
      /\ RecvBatch(Ev.ps, k)
      /\ Check("a receive acknowledged a wrong size", \A i \in 1..k : Ev.szs[i] = size[Ev.ps[i]])
      /\ present' = present \cup S /\ limbo' = limbo \ S            \* k x OkReceive
      /\ reply' = ReceiveReply(Ev.ps[k]) /\ UNCHANGED <<size, caps>>
      /\ Check("acknowledged but not listed in a stored meta blob / ciphertext missing",
-              \A i \in 1..k : /\ \E m \in metas' : m.id = Ev.ms[i] /\ m.ents = {[p |-> Ev.ps[i], c |-> Ev.cs[i]]}
-                               /\ \E x \in enc' : x.id = Ev.cs[i] /\ x.p = Ev.ps[i])
+              /\ \A i \in 1..k : \E m \in metas' : m.id = Ev.ms[i] /\ m.ents = {[p |-> Ev.ps[i], c |-> Ev.cs[i]]}
+              /\ Cardinality(enc') = Cardinality(enc) + k)
   /\ Mark
 
 (* a run of fetches: each reply is the map's *)
 TFetchN ==
   /\ IsEv("fetchn") /\ Live
   /\ Len(Ev.bs) >= 1 /\ Len(Ev.out) = Len(Ev.bs)
-  /\ Check("a fetch did not return the acknowledged blob (result class / size differ from the map's)",
+  /\ Check("a fetch result (class, size) is not the map's",
            \A i \in 1..Len(Ev.bs) : LET r == FetchReply(Ev.bs[i]) IN r.res = Ev.out[i][1] /\ r.size = Ev.out[i][2])
   /\ reply' = FetchReply(Ev.bs[Len(Ev.bs)])
   /\ UNCHANGED <<present, size, caps, limbo, evars>>
@@ -213,7 +214,7 @@ TRestart ==
   /\ mode \in {"up", "down"} /\ jobs = {} /\ recv = NoRecv
   /\ Check("conflicting entries in the meta blobs", Functional(AllEnts(metas)))
   /\ index' = Override(IF Ev.wipe THEN {} ELSE index, AllEnts(metas))
-  /\ Check("start-up compaction of unknown meta blobs, of meta blobs of more than Full lines or of a wrong number of them",
+  /\ Check("start-up compaction of unknown or full meta blobs, or of a wrong number of them",
            \A g \in Groups : /\ g \subseteq Ids(Recordable)
                               /\ \/ Cardinality(g) = Limit + 1
                                  \/ SumN(GroupMetas(g)) > Full
